@@ -22,9 +22,13 @@ import (
 
 	"github.com/ethereum/go-ethereum/common"
 	"github.com/ethereum/go-ethereum/crypto"
+	golibp2p "github.com/libp2p/go-libp2p"
+	libp2pcrypto "github.com/libp2p/go-libp2p/core/crypto"
+	"github.com/libp2p/go-libp2p/core/host"
 	"github.com/libp2p/go-libp2p/core/peer"
 	mockkeysigner "github.com/primevprotocol/mev-commit/pkg/keysigner/mock"
 	"github.com/primevprotocol/mev-commit/pkg/p2p"
+	"github.com/primevprotocol/mev-commit/pkg/util"
 	"github.com/prometheus/client_golang/prometheus"
 	"google.golang.org/protobuf/types/known/wrapperspb"
 )
@@ -41,6 +45,10 @@ type c20In struct {
 	RStaked    bool `json:"rstaked"` // initiators' registry about the responder
 	RKsOk      bool `json:"rksok"`   // responder's GetAddress reports the address of its own key
 	HoldMs     int  `json:"hold_ms"` // class 0: keep the gate closed this long after the streams were opened
+	// class 0: another connection under the initiator's peer id (a raw libp2p host with the
+	// initiator's key, no handshake on it) is closed at the responder while the responder is held
+	// and before the streams are opened: 1 = opened while held, 2 = opened before Connect
+	SecondConn int `json:"second_conn"`
 }
 
 type c20Stream struct {
@@ -58,6 +66,8 @@ type c20Obs struct {
 	GA          int         `json:"ga"`
 	UnknownLogs int         `json:"unknown_logs"` // diagnostic only: "unknown peer" lines in the responder's log
 	RegAtGate   bool        `json:"reg_at_gate"`  // diagnostic: responder had registered the peer while held at the gate
+	OtherClosed bool        `json:"other_closed"` // the second connection was seen and seen closed by the responder
+	OtherErr    string      `json:"other_err,omitempty"`
 }
 
 // c20KS is the responder's key signer: GetAddress counts, optionally sleeps, then waits for the gate.
@@ -201,8 +211,10 @@ func c20RunCase(t *testing.T, e *vfEnv, class string, in c20In, keyRng *rand.Ran
 
 	// ---- initiators ------------------------------------------------------------------
 	inis := make([]*Service, in.Inits)
+	iKeys := make([]*ecdsa.PrivateKey, in.Inits)
 	for j := range inis {
 		k := c20Key(keyRng)
+		iKeys[j] = k
 		svc, err := New(&Options{
 			KeySigner:  mockkeysigner.NewMockKeySigner(k, crypto.PubkeyToAddress(k.PublicKey)),
 			Secret:     "c20",
@@ -305,6 +317,51 @@ func c20RunCase(t *testing.T, e *vfEnv, class string, in c20In, keyRng *rand.Ran
 		}
 	}
 
+	// ---- second connections under the initiators' peer ids ---------------------------------
+	rAddrInfo := peer.AddrInfo{ID: rsp.host.ID(), Addrs: rsp.host.Addrs()}
+	spares := make([]host.Host, in.Inits)
+	defer func() {
+		for _, h := range spares {
+			if h != nil {
+				_ = h.Close()
+			}
+		}
+	}()
+	connsAtResponder := func(j int) int { return len(rsp.host.Network().ConnsToPeer(inis[j].host.ID())) }
+	openSpare := func(j int) {
+		lk, err := libp2pcrypto.UnmarshalSecp256k1PrivateKey(util.PadKeyTo32Bytes(iKeys[j].D))
+		if err == nil {
+			spares[j], err = golibp2p.New(golibp2p.Identity(lk), golibp2p.NoListenAddrs)
+		}
+		if err == nil {
+			before := connsAtResponder(j)
+			err = spares[j].Connect(ctx, rAddrInfo)
+			if err == nil && !c20Until(limit/4, func() bool { return connsAtResponder(j) > before }) {
+				err = errors.New("responder does not see the second connection")
+			}
+		}
+		if err != nil {
+			obs[j].OtherErr = err.Error()
+		}
+	}
+	closeSpare := func(j int) {
+		if spares[j] == nil || obs[j].OtherErr != "" {
+			return
+		}
+		before := connsAtResponder(j)
+		_ = spares[j].Close()
+		if c20Until(limit/4, func() bool { return connsAtResponder(j) < before }) {
+			obs[j].OtherClosed = true
+		} else {
+			obs[j].OtherErr = "responder does not see the second connection closed"
+		}
+	}
+	if in.Klass == 0 && in.SecondConn == 2 {
+		for j := range inis {
+			openSpare(j)
+		}
+	}
+
 	// ---- connect (all initiators concurrently) -------------------------------------------
 	var cwg sync.WaitGroup
 	for j := range inis {
@@ -349,6 +406,19 @@ func c20RunCase(t *testing.T, e *vfEnv, class string, in c20In, keyRng *rand.Ran
 					obs[j].RegAtGate = true
 				}
 			}
+		}
+		if in.SecondConn != 0 {
+			for j := range inis {
+				if conn[j].err == nil {
+					if in.SecondConn == 1 {
+						openSpare(j)
+					}
+					closeSpare(j)
+				}
+			}
+			// the responder's disconnect notifications run after the connection has left its
+			// table; nothing observable marks their end on the unchanged tree
+			time.Sleep(400 * time.Millisecond * slow)
 		}
 		for j := range inis {
 			if conn[j].err == nil {
@@ -443,6 +513,7 @@ func c20RunCase(t *testing.T, e *vfEnv, class string, in c20In, keyRng *rand.Ran
 				"i_addr", coqBytes(iAddr), "i_type", coqN(uint64(in.IType)), "i_staked", coqBool(in.IStaked),
 				"r_addr", coqBytes(rAddr.Bytes()), "r_type", coqN(uint64(in.RType)), "r_staked", coqBool(in.RStaked),
 				"r_ks_ok", coqBool(in.RKsOk),
+				"conn_close_other", coqBool(o.OtherClosed),
 				"connect_ok", coqBool(o.ConnectOK),
 				"ret_addr", coqBytes(retAddr), "ret_type", coqN(uint64(retType)),
 				"early", coqN(uint64(early)),
@@ -481,6 +552,10 @@ func TestVerifC20(t *testing.T) {
 	// while a stream opened right after Connect returned waits.  These cases have their own
 	// services and run concurrently with everything below, so the run grows by about the hold.
 	holdA, holdB := 4500, 3500
+	secondConn := []c20In{
+		mk(func(in *c20In) { in.SecondConn = 1 }),
+		mk(func(in *c20In) { in.SecondConn = 2; in.Streams = 2; in.IType = provider }),
+	}
 	if e.Tier == "thorough" {
 		holdA, holdB = 35000, 12000
 	}
@@ -493,6 +568,20 @@ func TestVerifC20(t *testing.T) {
 		go func(i int, in c20In) {
 			defer lh.Done()
 			c20RunCase(t, e, "long-hold", in, rand.New(rand.NewSource(e.Seed*104729+int64(i)+1)))
+		}(i, in)
+	}
+	// second-connection: while the responder is held, another connection under the initiator's
+	// peer id is closed at the responder, then the streams are opened (also run concurrently)
+	if e.Tier != "quick" {
+		secondConn = append(secondConn,
+			mk(func(in *c20In) { in.SecondConn = 1; in.Inits = 2; in.Streams = 2; in.HoldMs = 1500 }),
+			mk(func(in *c20In) { in.SecondConn = 2; in.RType = bidder; in.HoldMs = 4000 }))
+	}
+	for i, in := range secondConn {
+		lh.Add(1)
+		go func(i int, in c20In) {
+			defer lh.Done()
+			c20RunCase(t, e, "second-connection", in, rand.New(rand.NewSource(e.Seed*15485863+int64(i)+1)))
 		}(i, in)
 	}
 	defer lh.Wait()
